@@ -94,3 +94,12 @@ package tchannel
 //@   atcall AddSelectedPeer arg1 == p.hostPort
 //@   ensures calls(AddSelectedPeer) == 1
 //@   property C17
+
+// (ASSUMED, trusted view used only by thrift's client.Call, whose C18 clause is
+// about what happens AFTER the retry loop: the loop's own preconditions --
+// channel wiring, an attempt function that has not run yet -- are facts about
+// the caller's channel that the thrift package cannot see)
+//@ func (ch *Channel) RunWithRetry(runCtx context.Context, f RetriableFunc) (err error)
+//@   trusted
+//@   modifies all
+//@   property C18call
